@@ -1200,7 +1200,8 @@ impl LiteralValue {
             fn fmt(&self, f: &mut std::fmt::Formatter<'_>) -> std::fmt::Result {
                 match self.0 {
                     LiteralValue::Boolean(v) => write!(f, "{}", v),
-                    LiteralValue::String(v) => write!(f, "\"{}\"", v),
+                    // escapes quotes, backslashes and control characters
+                    LiteralValue::String(v) => write!(f, "{:?}", v),
                     LiteralValue::Integer(v) => write!(f, "{}", v),
                     LiteralValue::OctetString(v) => {
                         write!(f, "[")?;
